@@ -1849,7 +1849,7 @@ def cov_Obs(means, cov, name, grad=None):
             Covobs to be embedded into the Obs
         """
         o = Obs([], [], means=[])
-        o._value = co.value
+        o._value = float(co.value)
         o.names.append(co.name)
         o._covobs[co.name] = co
         o._dvalue = np.sqrt(co.errsq())
